@@ -2,6 +2,7 @@ PROP = {
     "lean_modules": ["GunYu.Props.C04"],
     "audit_namespaces": ["GunYu.Props.C04"],
     "required_theorems": [
+        "GunYu.Props.C04.no_checkpoint_unless_terminated",
         "GunYu.Props.C04.no_checkpoint_unless_all_applied",
         "GunYu.Props.C04.ok_only_if_all_applied",
         "GunYu.Props.C04.parse_total",
@@ -10,6 +11,11 @@ PROP = {
         "GunYu.Props.C04.alteration_needs_crc_collision",
         "GunYu.Props.C04.alteration_detected",
         "GunYu.Props.C04.zero_footer_exception",
+        "GunYu.Props.C04.parse_total_gen",
+        "GunYu.Props.C04.truncation_errors_gen",
+        "GunYu.Props.C04.done_ends_with_footer_gen",
+        "GunYu.Props.C04.alteration_detected_gen",
+        "GunYu.Props.C04.alteration_is_error_gen",
     ],
     "expected_facts": {},
     "harness": [
@@ -37,6 +43,17 @@ PROP = {
             "was written (target log / checkpointInMem / bisyncOffset); truncated or altered input never parses to Done (except the "
             "footer altered to eight zero bytes); no hang (synctest deadlock, 120 s wall-clock watchdog). Fan-out scenario results "
             "(ok/err, checkpoint 0/1) are compared with the Lean event system run on a deterministic schedule of the same scenario. "
+            "Added after review: (0) canary - the first file's truncations/alterations parsed in ONE child process first: a parser whose "
+            "panic escapes kills the process (SafeGo with nil handler) and is reported as 'crash' with the input, a channel closed "
+            "without Done/Err as 'parser-no-terminal'; (2a) truncations through the REAL disk-cache reader chain StoreChannel -> "
+            "Storer.GetReader -> store.RdbReader.pump -> Reader.Start (finished file <left>_<size>.rdb holding k bytes): SendRdb "
+            "not back after 10 virtual minutes = 'hang'; (2c) the 34 Redis-produced snapshots embedded in pkg/rdb/loader_test.go "
+            "(ziplist/listpack/intset/quicklist containers, LZF strings, FUNCTION2, streams with groups, expiries): truncations and "
+            "XOR masks on the expansion path in the supervised child, monitor 'no hang/oom/crash' and 'damaged => SendRdb errors'; "
+            "(3) per scenario (now also a snapshot with an AUX lua script, in-memory checkpoint in a third of the scenarios, and "
+            "bidirectional replay onto a CLUSTER target = one more result-sending goroutine) and per request k: single-shot error "
+            "(EXEC included), PERSISTENT failure from k on, an error INSIDE the EXEC reply of a queued command (bisync), cancel at k, "
+            "hold-cancel-release, and hold-release WITHOUT cancel (a slow worker must be awaited). "
             "distinct_nontrivial = distinct (file, position) alteration rows + distinct fan-out scenario points",
     "trusted": [
         "RDB framing (opcodes, length forms, string forms, per-type value layout) as transcribed in Model/RdbFrame.lean and as "
@@ -49,7 +66,16 @@ PROP = {
         "frame model: values below the 16 MiB chunk threshold; outcome 'unsup' (LZF string, text-float zset, stream, module, "
         "module-aux on the parse path) is outside the theorems and only monitored on the real code by the sweep",
         "standalone target (the cluster-only bisync global lane for functions/AUX is not modelled)",
-        "a snapshot reader that ends after the snapshot's bytes (store.RdbReader and MemoryReader close the pipe after `size` bytes)",
+        "rdb.ParseRdb sends Done or Err before closing its channel (guaranteed by `defer util.Xrecover(&err)` in Loader.Next; the "
+        "fan-out theorem no_checkpoint_unless_terminated makes the other case explicit: a channel closed without terminal IS taken "
+        "for a complete snapshot by distributeTask (`!ok -> return nil`) - a hardening candidate; the harness reports it as "
+        "'parser-no-terminal' / 'crash')",
+        "frame theorems *_gen hold for ANY item reader that is sequential (reads only forward through the tee'd reader), consumes its "
+        "opcode and reports EOF only for byte 0xFF - trusted for the real ReadBuffer of the encodings outside the modelled grammar "
+        "(LZF, text floats, streams, modules, chunk continuation); for the modelled grammar it is proved (item_good)",
+        "fan-out conclusion is membership (every entry of the snapshot is among the applied ones): with entries = positions of the "
+        "snapshot that is 'every entry applied'; multiplicity is not stated",
+        "MemoryReader (memory channel) is not driven by the harness (closes its pipe after copyFunc, by reading)",
     ],
     "partial": [
         "memory exhaustion / wall-clock hang on damaged input is outside what a theorem about the model can say (parse_total only "
@@ -69,7 +95,7 @@ MANIFEST = {
             "refused unless it becomes all-zero ('checksum disabled'). Tie: exhaustive truncation/XOR sweep of small files "
             "through the real parser (vs model) and the real SendRdb against the target double with fault injection, cancellation at "
             "every request and the hold-cancel-release schedule under synctest; independent Go monitor of the property.",
-    "note": "trusted: Lean kernel, RDB framing transcription, target double, synctest; models of the REPAIRED code (D6, D19 fixed; D22, D23 are crash/hang repairs outside the models)",
+    "note": "trusted: Lean kernel, RDB framing transcription, target double, synctest; models of the REPAIRED code (D6, D19 fixed; D22, D23, D26 are crash/hang repairs outside the models)",
     "technique": "Lean 4 proof (12-clause inductive invariant over an event system; sequential-reader combinator lemmas) + exhaustive "
                  "small-scope differential correspondence + fault/cancellation schedule exploration + monitor",
 }
